@@ -110,3 +110,11 @@ MANIFEST = {
  "text": "Label names and values are both derived from the sorted key list: for every map with distinct keys the zip of names and values is a permutation of the map, i.e. each configured label appears once, paired with its own value (C16_pairing, C16_lengths), and neither list depends on the traversal order of the map (C16_keys_order_independent, C16_values_order_independent). Sample counts: metric samples per result label = completed iterations of that outcome (+ in flight), in every reachable state of the interleaving model (C16_samples, corollary of C01's invariant). Tie: generated label maps through the real NewInstance/Gather; setup outcome label and per-result counts through scn programs; two consecutive runs on one metrics instance.",
  "note": "Prometheus internals (Observe, Reset, Gather, label validation) assumed. 'Not mixed with earlier runs' is monitored (scn.counts runs twice on one instance with Reset between), not proved.",
  "technique": "Lean 4 theorems (permutation/sortedness of the sorted-key construction; C01 invariant) + correspondence through the real registry"}
+
+
+def signature(rec):
+    """known finding D23: a scenario that times a stage named `iteration` adds its samples to the iteration series"""
+    c = rec["case"]
+    if c.startswith("cli ") and " timestage=iteration" in c:
+        return "C16:stage-named-iteration"
+    return c
